@@ -294,8 +294,16 @@ def replay_trans(c):
     bad = []
     arr = c["arr"]
     if c["dim"] == 1:
-        for dt in (np.int16, np.int64):
-            a = np.array(arr[0], dtype=dt)
+        # whether frames n and n+1 differ does not depend on what the state labels are: the same sequence once
+        # more under the injection s -> 65536 s (labels of a large state space, congruent modulo 2^16) in wide types
+        for dt in (np.int16, np.int64, "x65536-int64", "x65536-int32", "x65536-uint32"):
+            if isinstance(dt, str):
+                a = (np.array(arr[0], dtype=np.int64) * 65536).astype(dt.split("-")[1])
+                a0 = a.copy()
+                dt = type("wide", (), {"__name__": dt})
+            else:
+                a = np.array(arr[0], dtype=dt)
+                a0 = a.copy()
             try:
                 tt = disorder.transitions(a)
             except Exception as ex:
@@ -307,18 +315,20 @@ def replay_trans(c):
             got = [int(x) for x in tt]
             if got != c["e"]:
                 bad.append(("disorder.transitions/1d/values", {"dtype": dt.__name__, "got": got, "expected": c["e"]}))
-            if a.tolist() != arr[0]:
+            if a.tolist() != a0.tolist():
                 bad.append(("disorder.transitions/1d/input-modified", {}))
         return bad
     lens = {len(r) for r in arr}
     forms = []
     if len(lens) == 1:
-        forms += [("2d-int16", lambda: np.array(arr, dtype=np.int16)), ("2d-int64", lambda: np.array(arr, dtype=np.int64))]
+        forms += [("2d-int16", lambda: np.array(arr, dtype=np.int16)), ("2d-int64", lambda: np.array(arr, dtype=np.int64)),
+                  ("2d-x65536-int64", lambda: np.array(arr, dtype=np.int64) * 65536)]
         if min(lens) >= 1:
             forms.append(("ragged-equal-int16", lambda: ra.RaggedArray([np.array(r, dtype=np.int16) for r in arr])))
     else:
         forms += [("ragged-int16", lambda: ra.RaggedArray([np.array(r, dtype=np.int16) for r in arr])),
-                  ("ragged-int64", lambda: ra.RaggedArray([np.array(r, dtype=np.int64) for r in arr]))]
+                  ("ragged-int64", lambda: ra.RaggedArray([np.array(r, dtype=np.int64) for r in arr])),
+                  ("ragged-x65536-int32", lambda: ra.RaggedArray([(np.array(r, dtype=np.int64) * 65536).astype(np.int32) for r in arr]))]
     for form, mk in forms:
         cont = "ragged" if form.startswith("ragged") else "2d"
         try:
